@@ -2,12 +2,15 @@ package props
 
 import (
 	"bytes"
+	"context"
 	"encoding/json"
 	"errors"
 	"fmt"
 	"io"
+	"os"
 	"reflect"
 	"strings"
+	"syscall"
 	"testing/synctest"
 	"time"
 	"unsafe"
@@ -649,6 +652,22 @@ func c10mkErr(kind int, text string) error {
 		return c10sliceErr{text[:len(text)/2], text[len(text)/2:]}
 	case 2:
 		return c10structErr{parts: []string{text}, code: len(text)}
+	case 5:
+		// errors that are, by errors.Is, one of the well-known ones (a file
+		// closed by its owner, a closed pipe, a full disk, end of input, a
+		// cancelled context): failures like any other
+		n := int(text[len("branch-")] - '0')
+		switch n % 5 {
+		case 0:
+			return &os.PathError{Op: "write", Path: text, Err: os.ErrClosed}
+		case 1:
+			return fmt.Errorf("%s: %w", text, io.ErrClosedPipe)
+		case 2:
+			return &os.PathError{Op: "write", Path: text, Err: syscall.ENOSPC}
+		case 3:
+			return fmt.Errorf("%s: %w", text, io.EOF)
+		}
+		return fmt.Errorf("%s: %w", text, context.Canceled)
 	}
 	return errors.New(text)
 }
@@ -740,8 +759,8 @@ func runC10(c *Ctx) {
 	}
 	var branches []*c10branch
 	var cores []zapcore.Core
-	errKind := f.Weighted(8, 2, 2, 1, 1)
-	hostileErr := errKind >= 3
+	errKind := f.Weighted(8, 2, 2, 1, 1, 3)
+	hostileErr := errKind == 3 || errKind == 4
 	for b := 0; b < nBranch; b++ {
 		br := &c10branch{kind: g.Weighted(5, 2, 1), errText: fmt.Sprintf("branch-%d-failure", b)}
 		br.failing = f.Chance(3)
